@@ -15,4 +15,6 @@ cd $CR || exit 2
 cp $REPO/Cargo.lock Cargo.lock 2>/dev/null
 export CARGO_NET_OFFLINE=true CARGO_TARGET_DIR=$TD
 cargo build --offline --quiet 2> /verif/build/bounded-build.log || { tail -30 /verif/build/bounded-build.log >&2; exit 2; }
+# the command-line binary of the same working tree (for the checks that drive `anthem simplify` / `anthem verify`)
+cargo build --offline --quiet --manifest-path $REPO/Cargo.toml --bin anthem 2>> /verif/build/bounded-build.log || { tail -30 /verif/build/bounded-build.log >&2; exit 2; }
 echo $TD/debug/bounded
